@@ -151,7 +151,10 @@ void harness(void)
 			size_t u0 = offsetof(sqfs_inode_generic_t, data) +
 				spec_union_used(ITYPE);
 			const sqfs_u8 *raw = (const sqfs_u8 *)ino;
-#ifndef VERIF_REPLAY
+#if !defined(VERIF_REPLAY) && !defined(INO_LOOP_HAVOC)
+			/* (not with a loop contract on the byte-swap loop: its
+			   assigns clause has to name the whole object, so the
+			   union tail is havocked by the instrumentation) */
 			if (w >= u0 && w < sizeof(*ino))
 				VERIF_ASSERT(raw[w] == 0, INO("determined"));
 			if (w >= sizeof(*ino) + ino->payload_bytes_used &&
